@@ -49,10 +49,19 @@ def mk_msg(tok: str):
     raise ValueError(tok)
 
 
+_variant = [0]
+
+
 def start_op(client, kind, a, h):
+    # characteristic and descriptor entry points share the request machinery and the response types: rotated
+    _variant[0] += 1
     if kind == "read":
+        if _variant[0] % 2:
+            return client.bluetooth_gatt_read_descriptor(a, h, timeout=10.0)
         return client.bluetooth_gatt_read(a, h, timeout=10.0)
     if kind == "write":
+        if _variant[0] % 2:
+            return client.bluetooth_gatt_write_descriptor(a, h, b"x", timeout=10.0, wait_for_response=True)
         return client.bluetooth_gatt_write(a, h, b"x", True, timeout=10.0)
     if kind == "notify":
         return client.bluetooth_gatt_start_notify(a, h, lambda hh, d: None, timeout=10.0)
